@@ -151,9 +151,11 @@ func (p *Pool) Touch(m Member, h *Handle) {
 	if h.elem != nil {
 		p.lru.MoveToFront(h.elem)
 		p.hits++
+		p.verifEvent("pool.hit", h, 0)
 		return
 	}
 	h.elem = p.lru.PushFront(&entry{m: m, h: h})
+	p.verifEvent("pool.register", h, 0)
 
 	// Evict if we exceeded capacity. Two-pass victim selection:
 	// walk the LRU back-to-front and prefer the LRU-most Member
@@ -190,6 +192,7 @@ func (p *Pool) Touch(m Member, h *Handle) {
 			// Handle still claimed it was.
 			victimEnt.h.elem = nil
 			p.evictions++
+			p.verifEvent("pool.evict", victimEnt.h, 0)
 			// Release the lock while calling ReleaseNow to avoid
 			// a lock-ordering hazard against the Member's own
 			// mutex (SharedFile.mu in the real wiring). The rule
@@ -205,8 +208,10 @@ func (p *Pool) Touch(m Member, h *Handle) {
 			// elsewhere (e.g. packhandle.doClose) and is recorded
 			// here so the asymmetry doesn't read as an oversight.
 			p.mu.Unlock()
+			verifPoint("pool.evict.beforeReleaseNow")
 			err := victimEnt.m.ReleaseNow()
 			p.mu.Lock()
+			p.verifEvent("pool.evict.done", victimEnt.h, 0)
 			if err != nil {
 				p.evictionFailures++
 			}
@@ -233,6 +238,7 @@ func (p *Pool) Forget(h *Handle) {
 	}
 	p.lru.Remove(h.elem)
 	h.elem = nil
+	p.verifEvent("pool.forget", h, 0)
 }
 
 // Stats returns a snapshot of the pool's current statistics.
